@@ -16,7 +16,9 @@ import (
 
 var nasty = []string{`plain`, `with "quotes"`, `back\slash`, `both \" mixed`, `(parens) and )unbalanced(`, `{5}`, `{3}abc`, `brace } {`, "8bit \xe9\xe8 caf\xc3\xa9", `NIL`, `)`, `"`, `\`, `a@b <c@d>, "x, y" <e@f>`, strings.Repeat("long ", 300), "folded\r\n continuation \"q\"", `* 1 FETCH (FLAGS ())`, `t1 OK done`, "",
 	// long runs of quoted-specials at both alignments: wherever an implementation cuts, pads or wraps a long value, an escape pair sits there
-	strings.Repeat(`"`, 1500), "a" + strings.Repeat(`"`, 1500), strings.Repeat(`\`, 2100), "a" + strings.Repeat(`\`, 2100), strings.Repeat(`x"\`, 700)}
+	strings.Repeat(`"`, 1500), "a" + strings.Repeat(`"`, 1500), strings.Repeat(`\`, 2100), "a" + strings.Repeat(`\`, 2100), strings.Repeat(`x"\`, 700),
+	// carriage returns on their own inside a value
+	"bare\rcarriage return", "two\r\rof them \"q\"", "ends in one\r"}
 
 func messages() []string {
 	var out []string
